@@ -60,23 +60,25 @@ static inline long verif_abs_l(long x) { return x < 0 ? -x : x; }
 static inline long long verif_abs_ll(long long x) { return x < 0 ? -x : x; }
 
 
+/* commutative operations (add, mul) are abstracted as h(a,b) | h(b,a) with h uninterpreted: symmetric by construction
+ * (a harmless operand swap is not an alarm) and sound (the machine operation is the instance h = op). */
 /* scalar arithmetic as uninterpreted functions (units with opts uf_arith / uf_float): a sound abstraction --
  * what is proved for every interpretation of these symbols holds for the machine operations */
 #ifdef VERIF_CBMC
 static inline unsigned verif_bits_f32(float x) { union { float f; unsigned u; } v; v.f = x; return v.u; }
 static inline unsigned long verif_bits_f64(double x) { union { double f; unsigned long u; } v; v.f = x; return v.u; }
 int __CPROVER_uninterpreted_add_i32(int, int);
-static inline int verif_add_i32(int a, int b) { _Bool k__ = (a <= b); return __CPROVER_uninterpreted_add_i32(k__ ? a : b, k__ ? b : a); }
+static inline int verif_add_i32(int a, int b) { return __CPROVER_uninterpreted_add_i32(a, b) | __CPROVER_uninterpreted_add_i32(b, a); }
 unsigned int __CPROVER_uninterpreted_add_u32(unsigned int, unsigned int);
-static inline unsigned int verif_add_u32(unsigned int a, unsigned int b) { _Bool k__ = (a <= b); return __CPROVER_uninterpreted_add_u32(k__ ? a : b, k__ ? b : a); }
+static inline unsigned int verif_add_u32(unsigned int a, unsigned int b) { return __CPROVER_uninterpreted_add_u32(a, b) | __CPROVER_uninterpreted_add_u32(b, a); }
 long __CPROVER_uninterpreted_add_i64(long, long);
-static inline long verif_add_i64(long a, long b) { _Bool k__ = (a <= b); return __CPROVER_uninterpreted_add_i64(k__ ? a : b, k__ ? b : a); }
+static inline long verif_add_i64(long a, long b) { return __CPROVER_uninterpreted_add_i64(a, b) | __CPROVER_uninterpreted_add_i64(b, a); }
 unsigned long __CPROVER_uninterpreted_add_u64(unsigned long, unsigned long);
-static inline unsigned long verif_add_u64(unsigned long a, unsigned long b) { _Bool k__ = (a <= b); return __CPROVER_uninterpreted_add_u64(k__ ? a : b, k__ ? b : a); }
+static inline unsigned long verif_add_u64(unsigned long a, unsigned long b) { return __CPROVER_uninterpreted_add_u64(a, b) | __CPROVER_uninterpreted_add_u64(b, a); }
 float __CPROVER_uninterpreted_add_f32(float, float);
-static inline float verif_add_f32(float a, float b) { _Bool k__ = (verif_bits_f32(a) <= verif_bits_f32(b)); return __CPROVER_uninterpreted_add_f32(k__ ? a : b, k__ ? b : a); }
+static inline float verif_add_f32(float a, float b) { union { float f; unsigned u; } x__, y__, r__; x__.f = __CPROVER_uninterpreted_add_f32(a, b); y__.f = __CPROVER_uninterpreted_add_f32(b, a); r__.u = x__.u | y__.u; return r__.f; }
 double __CPROVER_uninterpreted_add_f64(double, double);
-static inline double verif_add_f64(double a, double b) { _Bool k__ = (verif_bits_f64(a) <= verif_bits_f64(b)); return __CPROVER_uninterpreted_add_f64(k__ ? a : b, k__ ? b : a); }
+static inline double verif_add_f64(double a, double b) { union { double f; unsigned long u; } x__, y__, r__; x__.f = __CPROVER_uninterpreted_add_f64(a, b); y__.f = __CPROVER_uninterpreted_add_f64(b, a); r__.u = x__.u | y__.u; return r__.f; }
 int __CPROVER_uninterpreted_sub_i32(int, int);
 #define verif_sub_i32(a, b) __CPROVER_uninterpreted_sub_i32(a, b)
 unsigned int __CPROVER_uninterpreted_sub_u32(unsigned int, unsigned int);
@@ -90,17 +92,17 @@ float __CPROVER_uninterpreted_sub_f32(float, float);
 double __CPROVER_uninterpreted_sub_f64(double, double);
 #define verif_sub_f64(a, b) __CPROVER_uninterpreted_sub_f64(a, b)
 int __CPROVER_uninterpreted_mul_i32(int, int);
-static inline int verif_mul_i32(int a, int b) { _Bool k__ = (a <= b); return __CPROVER_uninterpreted_mul_i32(k__ ? a : b, k__ ? b : a); }
+static inline int verif_mul_i32(int a, int b) { return __CPROVER_uninterpreted_mul_i32(a, b) | __CPROVER_uninterpreted_mul_i32(b, a); }
 unsigned int __CPROVER_uninterpreted_mul_u32(unsigned int, unsigned int);
-static inline unsigned int verif_mul_u32(unsigned int a, unsigned int b) { _Bool k__ = (a <= b); return __CPROVER_uninterpreted_mul_u32(k__ ? a : b, k__ ? b : a); }
+static inline unsigned int verif_mul_u32(unsigned int a, unsigned int b) { return __CPROVER_uninterpreted_mul_u32(a, b) | __CPROVER_uninterpreted_mul_u32(b, a); }
 long __CPROVER_uninterpreted_mul_i64(long, long);
-static inline long verif_mul_i64(long a, long b) { _Bool k__ = (a <= b); return __CPROVER_uninterpreted_mul_i64(k__ ? a : b, k__ ? b : a); }
+static inline long verif_mul_i64(long a, long b) { return __CPROVER_uninterpreted_mul_i64(a, b) | __CPROVER_uninterpreted_mul_i64(b, a); }
 unsigned long __CPROVER_uninterpreted_mul_u64(unsigned long, unsigned long);
-static inline unsigned long verif_mul_u64(unsigned long a, unsigned long b) { _Bool k__ = (a <= b); return __CPROVER_uninterpreted_mul_u64(k__ ? a : b, k__ ? b : a); }
+static inline unsigned long verif_mul_u64(unsigned long a, unsigned long b) { return __CPROVER_uninterpreted_mul_u64(a, b) | __CPROVER_uninterpreted_mul_u64(b, a); }
 float __CPROVER_uninterpreted_mul_f32(float, float);
-static inline float verif_mul_f32(float a, float b) { _Bool k__ = (verif_bits_f32(a) <= verif_bits_f32(b)); return __CPROVER_uninterpreted_mul_f32(k__ ? a : b, k__ ? b : a); }
+static inline float verif_mul_f32(float a, float b) { union { float f; unsigned u; } x__, y__, r__; x__.f = __CPROVER_uninterpreted_mul_f32(a, b); y__.f = __CPROVER_uninterpreted_mul_f32(b, a); r__.u = x__.u | y__.u; return r__.f; }
 double __CPROVER_uninterpreted_mul_f64(double, double);
-static inline double verif_mul_f64(double a, double b) { _Bool k__ = (verif_bits_f64(a) <= verif_bits_f64(b)); return __CPROVER_uninterpreted_mul_f64(k__ ? a : b, k__ ? b : a); }
+static inline double verif_mul_f64(double a, double b) { union { double f; unsigned long u; } x__, y__, r__; x__.f = __CPROVER_uninterpreted_mul_f64(a, b); y__.f = __CPROVER_uninterpreted_mul_f64(b, a); r__.u = x__.u | y__.u; return r__.f; }
 int __CPROVER_uninterpreted_div_i32(int, int);
 #define verif_div_i32(a, b) __CPROVER_uninterpreted_div_i32(a, b)
 unsigned int __CPROVER_uninterpreted_div_u32(unsigned int, unsigned int);
